@@ -190,11 +190,19 @@ func checkC03(c *Checker) {
 		grows := effectsOf(o, EGrow)
 		var target *Storage
 		okR1 := false
+		makeForm := false
 		detail := ""
 		if which == "in-place" {
 			okR1 = len(grows) == 0 && data.Stor != nil && data.Stor.Name == dst.stor() && eqInt(data.Off, zeroT()) && normInt(data.Len).Equal(newLen)
 			target = data.Stor
 			detail = fmt.Sprintf("final data %s, %d growing appends", valString(data), len(grows))
+		} else if len(grows) == 0 && data.Stor != nil && data.Stor.Kind == SFresh {
+			// the growth is spelled out: storage made in this call (any capacity policy: the property fixes only what
+			// R2 and R4 check), the old contents copied into it, the header switched to it
+			makeForm = true
+			okR1 = eqInt(data.Off, zeroT()) && normInt(data.Len).Equal(newLen)
+			target = data.Stor
+			detail = fmt.Sprintf("final data %s on storage made in the call", valString(data))
 		} else {
 			okR1 = len(grows) == 1 && !grows[0].Stor.May && grows[0].Dst.Stor != nil && grows[0].Dst.Stor.Name == dst.stor() && eqInt(grows[0].Dst.Len, dst.lenT()) &&
 				eqInt(grows[0].Dst.Off, zeroT()) && eqInt(grows[0].N, src.lenT()) && data.Stor == grows[0].Stor && normInt(data.Len).Equal(newLen)
@@ -206,7 +214,26 @@ func checkC03(c *Checker) {
 		var regs []region
 		bad := 0
 		var badDesc []*Effect
-		for _, e := range mods(o) {
+		effs := mods(o)
+		if makeForm {
+			// writes into the storage made in this call are not modifications of anything that existed, but here
+			// they are the appended buffer
+			in := map[*Effect]bool{}
+			for _, e := range effs {
+				in[e] = true
+			}
+			for _, e := range o.St.effects {
+				if in[e] {
+					continue
+				}
+				if (e.Kind == EStoreElem && e.Stor == target) || ((e.Kind == ECopy || e.Kind == EClear) && e.Dst != nil && e.Dst.Stor == target) {
+					effs = append(effs, e)
+				}
+			}
+		}
+		okOld := !makeForm
+		fa0 := factsWith(o.St.facts, assume)
+		for _, e := range effs {
 			switch e.Kind {
 			case EStoreElem, ECopy, EClear:
 				r, ok := regionOf(e)
@@ -232,6 +259,11 @@ func checkC03(c *Checker) {
 			okCopy = true
 		}
 		for _, r := range regs {
+			if makeForm && !okOld && r.stor == target && r.conv == 0 && !r.zero && r.start.IsZero() && r.srcStor != nil && r.srcStor.Name == dst.stor() && r.srcStart.IsZero() &&
+				(r.count.Equal(normInt(dst.lenT())) || eqUnder(r.count.toTerm(), dst.lenT(), fa0)) {
+				okOld = true // the old contents, copied to the front of the new storage
+				continue
+			}
 			if r.stor == target && r.conv == 0 && r.start.Equal(normInt(dst.lenT())) && r.count.Equal(normInt(src.lenT())) && r.srcStor != nil && r.srcStor.Name == src.stor() && r.srcStart.IsZero() && !okCopy {
 				okCopy = true
 				continue
@@ -242,8 +274,8 @@ func checkC03(c *Checker) {
 			bad++
 			badDesc = append(badDesc, r.eff)
 		}
-		c.expect(okCopy && bad == 0, "C03-R2", inst, c.pos(o.Pos), "data[len0(dst)+i] <- src.data[i], i < len0(src); nothing else written",
-			fmt.Sprintf("copy region found: %v; %d unexpected effects: %s", okCopy, bad, describeEffects(badDesc)))
+		c.expect(okCopy && okOld && bad == 0, "C03-R2", inst, c.pos(o.Pos), "data[len0(dst)+i] <- src.data[i], i < len0(src); nothing else written",
+			fmt.Sprintf("copy region found: %v; old contents carried over: %v; %d unexpected effects: %s", okCopy, okOld, bad, describeEffects(badDesc)))
 		hz := effectsOf(o, EHazard)
 		if len(hz) == 0 {
 			c.proved("C03-R3", inst, c.pos(o.Pos), "no use of the source header after the destination header store")
@@ -263,7 +295,30 @@ func checkC03(c *Checker) {
 		} else if len(grows) == 1 {
 			base = normInt(&Term{Op: OpAtom, Name: "cap(" + grows[0].Stor.Name + ")", Typ: intT})
 		}
-		if base == nil || data.Cap == nil {
+		if makeForm && data.Cap != nil {
+			// any growth policy: the final capacity must be a whole number of frames and hold the new length
+			capDetail = "final capacity " + pretty(canon(data.Cap))
+			nCases := 0
+			for _, cs := range casesOf(canon(data.Cap), fa, 0) {
+				// the case decides conditional terms inside the path's facts too (the capacity policy is one term)
+				cf := simplifyFacts(cs.facts, cs.facts)
+				if alignedInfeasible(cf, dst, src) != "" {
+					continue
+				}
+				nCases++
+				got = normInt(simplifyUnder(cs.val, cf))
+				if !multipleOf(got, dst.ch(), cf) {
+					okCap = false
+					capDetail = "capacity " + pretty(cs.val) + " is not a whole number of frames under " + cf.String()
+				} else if !cf.impliesGE0(got.Sub(newLen)) && floorMultipleGE0(cf, got.Sub(newLen), dst, src) == "" {
+					okCap = false
+					capDetail = "capacity " + pretty(cs.val) + " is not implied to be at least the new length " + newLen.String()
+				}
+			}
+			if nCases == 0 {
+				okCap, capDetail = false, "no feasible case for the final capacity"
+			}
+		} else if base == nil || data.Cap == nil {
 			okCap, capDetail = false, "final capacity unresolved"
 		} else {
 			bt := base.toTerm()
@@ -524,4 +579,47 @@ func normalizeRegions(regs []region, f *Facts) []region {
 		}
 	}
 	return out
+}
+
+// multipleOf: p is a multiple of m, shown structurally: p = k*(A - A mod m) + rest (or k*m*(A/m) + rest) with rest a
+// multiple of m again; a monomial with the factor m is a multiple; a polynomial the facts say leaves no remainder.
+func multipleOf(p *Poly, m *Term, f *Facts) bool {
+	mk := canon(m).Key()
+	if p.IsZero() {
+		return true
+	}
+	// the facts say p mod m == 0
+	for _, fc := range f.list {
+		if fc.Kind != CEQ0 || fc.P == nil || len(fc.P.m) != 1 {
+			continue
+		}
+		for _, mo := range fc.P.m {
+			if len(mo.factors) == 1 && mo.factors[0].Op == OpRem && canon(mo.factors[0].Args[1]).Key() == mk && normInt(mo.factors[0].Args[0]).Equal(p) {
+				return true
+			}
+		}
+	}
+	for _, mo := range p.m {
+		if len(mo.factors) == 1 && mo.factors[0].Op == OpRem && canon(mo.factors[0].Args[1]).Key() == mk {
+			// p = -coef*(A - A mod m) + rest
+			r := mo.factors[0]
+			k := new(big.Int).Neg(mo.coef)
+			rest := p.Add(polyAtom(r).Scale(k)).Sub(normInt(r.Args[0]).Scale(k))
+			if len(rest.m) < len(p.m) || !rest.mentions(func(x *Term) bool { return x.Key() == r.Key() }) {
+				return multipleOf(rest, m, f)
+			}
+		}
+	}
+	for _, mo := range p.m {
+		has := false
+		for _, fac := range mo.factors {
+			if canon(fac).Key() == mk {
+				has = true
+			}
+		}
+		if !has {
+			return false
+		}
+	}
+	return true
 }
